@@ -351,9 +351,45 @@ func mulFacs(a, b []fac) []fac {
 			}
 		}
 	}
+	// pow(b, e)·b^k = pow(b, e+k) when b is a single atom
+	for _, k := range keys {
+		f := m[k]
+		if f.a.Kind != APow || f.e != 1 {
+			continue
+		}
+		base := f.a.Args[0]
+		if len(base.terms) != 1 || len(base.terms[0].f) != 1 || base.terms[0].f[0].e != 1 || base.terms[0].c.Cmp(big.NewRat(1, 1)) != 0 {
+			continue
+		}
+		bk := base.terms[0].f[0].a.Key()
+		if o, ok := m[bk]; ok && o.e != 0 {
+			ne := Add(f.a.Args[1], NumI(int64(o.e)))
+			o.e = 0
+			np := PowE(base, ne)
+			delete(m, k)
+			// np is a single-atom expression (or plain power); fold it back
+			for _, t := range np.terms {
+				for _, nf := range t.f {
+					nk := nf.a.Key()
+					if ex, ok := m[nk]; ok {
+						ex.e += nf.e
+					} else {
+						c := nf
+						m[nk] = &c
+						keys = append(keys, nk)
+					}
+				}
+			}
+		}
+	}
 	sort.Strings(keys)
 	out := make([]fac, 0, len(keys))
+	seenKey := map[string]bool{}
 	for _, k := range keys {
+		if seenKey[k] || m[k] == nil {
+			continue
+		}
+		seenKey[k] = true
 		f := *m[k]
 		if f.a.Kind == AInd && f.e > 1 {
 			f.e = 1 // indicators are idempotent
